@@ -45,3 +45,4 @@ def run(ses):
 
 confirm = c01.confirm
 replay = c01.replay
+BASELINE = ['footer_compare', 'setter']
